@@ -19,12 +19,13 @@ TRUSTED_NUMERIC = [
 
 class Unit:
     def __init__(self, cls, src, spec, defines=(), header='masa_internal.h', select=None, skip=('init_var',),
-                 replace=None, frame_ok=None, timeout=None, tag='', key_suffix='.contract'):
+                 replace=None, frame_ok=None, timeout=None, tag='', key_suffix='.contract', sample='uniform', arg_box=None):
         self.cls, self.src, self.spec, self.defines, self.header = cls, src, spec, list(defines), header
         self.select = select          # regex on member-function name: which functions this property covers
         self.skip = skip
         self.replace = replace or {}  # cname -> [callee cnames replaced by their contract]
         self.timeout = timeout
+        self.sample, self.arg_box = sample, (arg_box or {})   # native sampling: 'uniform' in [-2,2] or 'defaults' (init_var values x (1 +- 30%))
         self.tag, self.key_suffix = tag, key_suffix   # pinned "as-coded" characterisations of known findings use another key
         self.decl = None
         self.funcs = []
@@ -71,11 +72,20 @@ def native_unit_text(u, under):
         params = '' if params == 'void' else params + ', '
         o.append('static int twin_%s(%sSc *want) { CONTRACT_%s return 1; }' % (f.cname, params, f.cname))
     # driver
+    init_fn = None
+    if getattr(u, 'sample', 'uniform') == 'defaults':
+        d2, f2 = xtract.extract_class(os.path.join(SRC, u.src), os.path.join(SRC, u.header), u.cls, skip=(), only=['init_var'], extra_ids=[f_.cname for f_ in u.funcs])
+        for f_ in f2:
+            o.append('/* defaults: extracted init_var (native sampling only) */\nint %s(void)\n{%s}\n' % (f_.cname, f_.body_c))
+            init_fn = f_.cname
     o.append('static Sc rnd(void) { return (Sc)(4.0 * drand48() - 2.0); }')
     o.append('static Sc rndp(void) { Sc r = rnd(); if (fabsl(r) < 0.05L) r = 0.37L; return r; }')
     o.append('struct mem { const char *n; Sc *p; };')
     o.append('static struct mem mems[] = {%s {0, 0}};' % ''.join('{"%s", &%s},' % (m, m) for m in u.decl.scalars))
-    o.append('''static void randomize(void) { for (struct mem *m = mems; m->n; m++) *m->p = rndp(); pi = PI = acosl(-1.0L);%s }''' % (
+    if init_fn:
+        o.append('static void randomize(void) { for (struct mem *m = mems; m->n; m++) *m->p = 0; %s(); for (struct mem *m = mems; m->n; m++) *m->p *= (Sc)(1.0 + 0.3 * (2.0 * drand48() - 1.0)); pi = PI = acosl(-1.0L); }' % init_fn)
+    else:
+      o.append('''static void randomize(void) { for (struct mem *m = mems; m->n; m++) *m->p = rndp(); pi = PI = acosl(-1.0L);%s }''' % (
         ''.join(' %s_size = 1 + (int)(drand48() * 6); for (int i = 0; i < VF_VECMAX; i++) %s[i] = rnd();' % (v, v) for v in u.decl.vectors)))
     o.append('static void dump(void) { printf("\\"members\\": {"); for (struct mem *m = mems; m->n; m++) printf("%s\\"%s\\": \\"%.21Lg\\"", m == mems ? "" : ", ", m->n, *m->p); printf("}"); }')
     o.append('int main(int argc, char **argv) {\n  const char *fn = argv[1]; long seed = atol(argv[2]); long N = atol(argv[3]); srand48(seed); long tried = 0, evald = 0;')
@@ -85,7 +95,10 @@ def native_unit_text(u, under):
         o.append('    for (long it = 0; it < N; it++) { randomize(); vf_assume_failed = 0; ghost_msg = ghost_exit = ghost_nan = 0;')
         names = []
         for t, n, k in sc:
-            if k == 'scalar':
+            if k == 'scalar' and n in getattr(u, 'arg_box', {}):
+                lo_, hi_ = u.arg_box[n]
+                o.append('      Sc a_%s = (Sc)(%r + (%r - %r) * drand48());' % (n, lo_, hi_, lo_))
+            elif k == 'scalar':
                 o.append('      Sc a_%s = rnd();' % n)
             elif k == 'int':
                 o.append('      int a_%s = (int)(drand48() * 9) - 2;' % n)
@@ -197,7 +210,7 @@ def differs(a, b):
     return abs(x - y) > Decimal('1e-9') * sc
 
 
-def run_numeric(prop, units, tier, seed, trusted_extra=(), design_ref='', lemmas=(), api_groups=None, api_only=None, explanation=None):
+def run_numeric(prop, units, tier, seed, trusted_extra=(), design_ref='', lemmas=(), api_groups=None, api_only=None, explanation=None, bounded=()):
     t0 = time.time()
     rep = Report(prop)
     base = scratch('num-' + prop)
@@ -214,8 +227,10 @@ def run_numeric(prop, units, tier, seed, trusted_extra=(), design_ref='', lemmas
             if os.environ.get('VF_ONLY'):
                 sel = [f for f in sel if re.search(os.environ['VF_ONLY'], f.cname)]
             u.under = [f for f in sel if f.cname in have]
+            bnames = {b_[0] for b_ in bounded}
+            u.bounded_fns = [f for f in sel if f.cname in bnames and f.cname not in have]
             for f in sel:
-                if f.cname not in have:
+                if f.cname not in have and f.cname not in bnames:
                     not_under.append(f.cname)
                 for nt in f.notes:
                     notes.append('%s: %s' % (f.cname, nt))
@@ -257,7 +272,7 @@ def run_numeric(prop, units, tier, seed, trusted_extra=(), design_ref='', lemmas
             results.append((job, r))
 
     n_obl = n_dis = 0
-    samples, per_fn, bounded, kf_obl = [], [], [], 0
+    samples, per_fn, bounded_info, kf_obl = [], [], [], 0
     solver_s = 0.0
     checker_cmd = ''
     for (u, f, hf), r in results:
@@ -269,7 +284,7 @@ def run_numeric(prop, units, tier, seed, trusted_extra=(), design_ref='', lemmas
         if r.status == 'discharged' and r.canary != 'reachable':
             # vacuity guard could not be decided by the solvers: fall back to concrete reachability of the contract's
             # precondition in the native twin (weaker: shows requires is satisfiable over the reals, not the axioms' consistency)
-            nr = native_search(u, u.under, f, seed, 2000) if not getattr(f, 'is_lemma', False) else {}
+            nr = native_search(u, u.under + getattr(u, 'bounded_fns', []), f, seed, 2000) if not getattr(f, 'is_lemma', False) else {}
             if nr.get('found') or nr.get('evaluated', 0) > 0:
                 per_fn[-1]['canary'] = 'native-reachable'
             else:
@@ -285,7 +300,7 @@ def run_numeric(prop, units, tier, seed, trusted_extra=(), design_ref='', lemmas
             rep.undecide('lemma %s not discharged (%s %s)' % (f.cname, r.status, r.detail))
             continue
         # not discharged: search for a concrete input, then replay on the real class
-        found = native_search(u, u.under, f, seed, N)
+        found = native_search(u, u.under + getattr(u, 'bounded_fns', []), f, seed, N)
         payload = {'function': f.cname, 'class': u.cls, 'source': u.src, 'method': f.name, 'status': r.status,
                    'failed_obligations': r.failed, 'detail': r.detail, 'verifier_output': r.log[-8000:], 'checker_cmd': r.cmd,
                    'native_search': found}
@@ -314,6 +329,33 @@ def run_numeric(prop, units, tier, seed, trusted_extra=(), design_ref='', lemmas
         if os.environ.get('VF_VERBOSE'):
             sys.stderr.write(r.log[-3000:] + '\n')
 
+    # ---- bounded stand-ins (DESIGN 3.4): native twin, code vs un-weakened contract on N sampled admissible inputs; never counted as proved
+    breason = dict(bounded)
+    for u in units:
+        for f in getattr(u, 'bounded_fns', []):
+            if f.ret != 'Sc':
+                bounded_info.append({'function': f.cname, 'label': 'bounded', 'result': 'not sampled: no scalar result to compare (validated through its callers)', 'reason': breason.get(f.cname, '')})
+                continue
+            found = native_search(u, u.under + u.bounded_fns, f, seed, N)
+            key = f.cname + getattr(u, 'key_suffix', '.contract')
+            if found.get('found'):
+                real, rlog = replay_real(u.cls, u.src, f.name, found['members'], replay_args(f, found['args']),
+                                         os.path.join(u.dir, 'replay_' + f.cname), header=u.header, extra=CB_EXTRA)
+                payload = {'function': f.cname, 'class': u.cls, 'source': u.src, 'method': f.name, 'status': 'bounded stand-in found a counterexample',
+                           'failed_obligations': [f.cname + '.bounded'], 'native_search': found, 'real_value': real, 'spec_value': found['want'],
+                           'replay_args': replay_args(f, found['args']), 'replay_log': rlog[-1500:]}
+                if real is not None and differs(real, found['want']):
+                    rep.violation(key, payload)
+                else:
+                    rep.undecide('%s: bounded stand-in found an input the real library does not reproduce' % f.cname)
+                continue
+            ev_ = found.get('evaluated', 0)
+            if ev_ < 200:
+                rep.undecide('%s: bounded stand-in evaluated only %d admissible samples (%s)' % (f.cname, ev_, found.get('error', '')))
+                continue
+            bounded_info.append({'function': f.cname, 'label': 'bounded (never counted as proved)', 'samples_tried': found.get('tried'), 'samples_evaluated': ev_,
+                                 'bound': 'native long double twin of the extracted code vs the contract expression, tolerance 1e-9 relative; sampling=%s' % getattr(u, 'sample', 'uniform'),
+                                 'reason': breason.get(f.cname, '')})
     api_extra = {}
     if api_groups:
         import apicheck
@@ -338,7 +380,7 @@ def run_numeric(prop, units, tier, seed, trusted_extra=(), design_ref='', lemmas
            'functions_not_under_contract': not_under,
            'per_function': per_fn, 'solver_seconds_total': round(solver_s, 1),
            'extraction_rule_hits': extraction, 'extraction_notes': notes[:50],
-           'known_finding_obligations': kf_obl, 'bounded': bounded,
+           'known_finding_obligations': kf_obl, 'bounded': bounded_info,
            'samples': samples or [{'note': 'no obligation discharged'}],
            'explanation': explanation or 'each function of /repo/src is extracted mechanically to C each run and its contract '
                           '(ensures ret == PDE operator applied to the documented field jet) is enforced by goto-instrument --dfcc; '
